@@ -6,4 +6,12 @@ namespace Kp
 
 abbrev Bytes := List UInt8
 
+instance instDecidableEqExcept {ε α : Type} [DecidableEq ε] [DecidableEq α] : DecidableEq (Except ε α) :=
+  fun a b =>
+    match a, b with
+    | .ok x, .ok y => if h : x = y then isTrue (by rw [h]) else isFalse (fun h' => h (by injection h'))
+    | .error x, .error y => if h : x = y then isTrue (by rw [h]) else isFalse (fun h' => h (by injection h'))
+    | .ok _, .error _ => isFalse (fun h => by cases h)
+    | .error _, .ok _ => isFalse (fun h => by cases h)
+
 end Kp
